@@ -286,6 +286,20 @@ func (i *interpreter) makeSlice(instr *ssa.MakeSlice, lenv, capv value) value {
 		}
 	}
 	n := i.concInt(lenv)
+	if cs, ok := capv.(sv); ok {
+		if _, lenSym := lenv.(sv); !lenSym {
+			// concrete length, symbolic capacity (a pre-allocation hint such as
+			// make([]T, 0, header%limit)): the capacity has no observable effect beyond the
+			// cap < len panic, so it is not enumerated: the panic is decided by the solver and the
+			// slice gets the smallest capacity that fits. The allocation bound still applies.
+			i.symAlloc(cs)
+			small := i.ctx.Slt(i.int64Term(cs), i.ctx.BV(uint64(n), 64))
+			if i.branch(small) {
+				panic(runtimeError("makeslice: cap out of range"))
+			}
+			capv = int(n)
+		}
+	}
 	c := i.concInt(capv)
 	if n < 0 || c < n {
 		panic(runtimeError("makeslice: len out of range"))
